@@ -46,7 +46,7 @@ WIDE = {
     "C14": SIGNED + UNSIGNED + WORDS,
 }
 # operand pairs per wide type (quick, thorough); measured: ~1.5-4 ms of TLC time per judged event
-PAIRS = {"C11": (450, 6000), "C12": (1100, 10000), "C13": (380, 5000), "C14": (280, 4000)}
+PAIRS = {"C11": (400, 5000), "C12": (1000, 8000), "C13": (340, 4000), "C14": (260, 3000)}
 
 
 def _env():
@@ -176,11 +176,17 @@ def run_table(ctx, binary, prop, jobs, results):
 
 
 # ------------------------------------------------------------------------------------------ wide types
-def operands_job(ctx, prop):
-    sel = ", ".join('"%s"' % t for t in WIDE[prop])
-    cfg = write_cfg(ctx, "Operands_%s.cfg" % prop,
-                    "SPECIFICATION Spec\nCONSTANTS Sel = {%s}\n Dense = %s\nINVARIANT Emit\n" % (sel, "FALSE" if ctx.quick else "TRUE"))
-    return {"files": BASE + ["num/Operands.tla", cfg], "module": "Operands", "cfg": os.path.basename(cfg), "tag": "operands", "timeout": 1500}
+def operands_jobs(ctx, prop):
+    """Quick: one TLC for all types (thinned sets); thorough: dense sets, one TLC per type."""
+    groups = [WIDE[prop]] if ctx.quick else [[t] for t in WIDE[prop]]
+    jobs = []
+    for g in groups:
+        sel = ", ".join('"%s"' % t for t in g)
+        name = "Operands_%s_%s.cfg" % (prop, "all" if len(g) > 1 else g[0])
+        cfg = write_cfg(ctx, name, "SPECIFICATION Spec\nCONSTANTS Sel = {%s}\n Dense = %s\nINVARIANT Emit\n" % (sel, "FALSE" if ctx.quick else "TRUE"))
+        jobs.append({"files": BASE + ["num/Operands.tla", cfg], "module": "Operands", "cfg": os.path.basename(cfg),
+                     "tag": "operands-" + ("all" if len(g) > 1 else g[0]), "timeout": 2400})
+    return jobs
 
 
 def check_sema(ctx, binary, ops):
@@ -267,7 +273,7 @@ def describe(ev):
 
 
 def run_trace(ctx, binary, prop, ops_res):
-    ops = ops_res.json_lines()
+    ops = [o for r in ops_res for o in r.json_lines()]
     if len(ops) != len(WIDE[prop]):
         raise Infra("Operands printed %d types, expected %d" % (len(ops), len(WIDE[prop])))
     sema = check_sema(ctx, binary, ops)
@@ -320,13 +326,13 @@ def check_int_prop(ctx, prop):
     _env()
     binary = ctx.build("num")
     tjobs = table_jobs(ctx, prop)
-    jobs = [laws_job(ctx), operands_job(ctx, prop)] + tjobs
-    res = par_tlc(ctx, jobs)
+    ojobs = operands_jobs(ctx, prop)
+    res = par_tlc(ctx, [laws_job(ctx)] + ojobs + tjobs)
     check_laws(res[0])
-    tsum, rows, t_nontrivial, t_errors = run_table(ctx, binary, prop, tjobs, res[2:])
+    tsum, rows, t_nontrivial, t_errors = run_table(ctx, binary, prop, tjobs, res[1 + len(ojobs):])
     ctx.log("8-bit tables: %d rows, %d entries, %d error entries, %d scripts, skipped members %s" % (
         tsum["rows"], tsum["entries"], tsum["error_entries"], tsum["scripts"], tsum.get("skipped_members")))
-    wsum, events, w_nontrivial, w_errors, judged, nchunks, sema = run_trace(ctx, binary, prop, res[1])
+    wsum, events, w_nontrivial, w_errors, judged, nchunks, sema = run_trace(ctx, binary, prop, res[1:1 + len(ojobs)])
     ctx.log("wide types: %d cases, %d events judged in %d TLC chunks, %d error outcomes" % (wsum["cases"], judged, nchunks, w_errors))
     cov = {
         "traces_validated_against_impl": judged + tsum["entries"],
